@@ -340,6 +340,13 @@ def check_binding(rep, ix):
     rep.ob('R-C20-BIND', f'{BF}:_lis', 'the LIS detector indexes with the best settings reader', "File.file_read_with_best_physical_record_pad_settings(fobj,'',pr_limit=100)" in calls and 'FileIndexer.FileIndex(lis_file)' in calls, found=str(calls[:4]), node=l, module=ix.module(BF))
 
 
+def check_dat_table(rep, ix):
+    # the DAT detector parses the text with DAT_parser: its line-sanitising table decides whether a valid (tab-separated) DAT
+    # file is recognised; same rule as C14
+    from . import C14
+    C14.check_sanitise(rep, ix, ix.module(C14.M))
+
+
 def run(rep, ix, tier):
     imports.check_import_closure(rep, ix, 'R-IMP', [BF])
     check_detect(rep, ix)
@@ -348,6 +355,7 @@ def run(rep, ix, tier):
     check_escape(rep, ix)
     check_sul(rep, ix)
     check_binding(rep, ix)
+    check_dat_table(rep, ix)
     rep.floor('R-C20-DETECT', 60)
     rep.floor('R-C20-ORDER', 18)
     rep.floor('R-C20-REWIND', 5)
